@@ -323,7 +323,7 @@ pub fn run(tier: Tier, seed: u64, known: &KnownFindings) -> CheckReport {
             "a seeded schedule is replayed by re-running the same scheduler seed; the recorded sequence of task ids is hashed into the violation message so a replay shows it took the same schedule".into(),
         ],
         real_components: vec!["mahf::problems::evaluate::{Sequential, Parallel}, mahf::experiments::par_experiment, mahf::state::random::Random, Configuration::{run, optimize_with, clone}".into(), "all template components".into()],
-        stubbed_components: vec!["rayon (simulated worker pool on shuttle threads)".into(), "indicatif (inert)".into(), "the disk in the par-experiment batch (in-memory SimDisk behind the I/O seam)".into()],
+        stubbed_components: vec!["rayon (simulated worker pool on shuttle threads)".into(), "indicatif (inert)".into(), "the disk's failure behaviour in the par-experiment batch (SimDisk fault layer in front of real scratch files)".into()],
         batches: vec![b1, b2, b3],
         extra: Default::default(),
     }
